@@ -160,6 +160,72 @@ func (x *Exec) RegisterStdModels() {
 		return S(App("multierr.Append", SInt, e.toTerm(a[0]), e.toTerm(a[1])))
 	}
 
+	// strings / path/filepath under the String theory
+	strLen := func(t *Term) *Term { return App("str.len", SInt, t) }
+	x.Models["strings.HasSuffix"] = func(s *State, c *CallCtx) (Value, bool) {
+		if !StringTheory {
+			return nil, false
+		}
+		return S(App("str.suffixof", SBool, x.scalar(c.Args[1]), x.scalar(c.Args[0]))), true
+	}
+	x.Models["strings.HasPrefix"] = func(s *State, c *CallCtx) (Value, bool) {
+		if !StringTheory {
+			return nil, false
+		}
+		return S(App("str.prefixof", SBool, x.scalar(c.Args[1]), x.scalar(c.Args[0]))), true
+	}
+	x.Models["strings.TrimSuffix"] = func(s *State, c *CallCtx) (Value, bool) {
+		if !StringTheory {
+			return nil, false
+		}
+		a, suf := x.scalar(c.Args[0]), x.scalar(c.Args[1])
+		return S(Ite(App("str.suffixof", SBool, suf, a), App("str.substr", SString, a, IntLit(0), Sub(strLen(a), strLen(suf))), a)), true
+	}
+	for _, fn := range []string{"path/filepath.Base", "path/filepath.Dir", "path/filepath.Ext"} {
+		fn := fn
+		x.Models[fn] = func(s *State, c *CallCtx) (Value, bool) {
+			if !StringTheory {
+				return nil, false
+			}
+			name := "fp." + fn[len("path/filepath."):]
+			x.Ctx.DeclareFunc(name, []string{SString}, SString)
+			a := x.scalar(c.Args[0])
+			r := App(name, SString, a)
+			if fn == "path/filepath.Ext" {
+				// assumed: a name ending in ".go" has extension ".go"; the extension is a suffix
+				s.Assume(Implies(App("str.suffixof", SBool, Atom("\".go\"", SString), a), Eq(r, Atom("\".go\"", SString))))
+				s.Assume(App("str.suffixof", SBool, r, a))
+			}
+			return S(r), true
+		}
+	}
+	x.Models["path/filepath.Join"] = func(s *State, c *CallCtx) (Value, bool) {
+		if !StringTheory {
+			return nil, false
+		}
+		sl := s.sliceSnapshot(c.Args[0])
+		n, ok := sl.Len.IntVal()
+		if !ok || n != 2 {
+			return nil, false
+		}
+		x.Ctx.DeclareFunc("fp.Join", []string{SString, SString}, SString)
+		return S(App("fp.Join", SString, Select(sl.Arr, IntLit(0)), Select(sl.Arr, IntLit(1)))), true
+	}
+	x.SpecFuncs["fpJoin"] = func(e *Env, a []Value) Value {
+		x.Ctx.DeclareFunc("fp.Join", []string{SString, SString}, SString)
+		return S(App("fp.Join", SString, e.toTerm(a[0]), e.toTerm(a[1])))
+	}
+	for _, n := range []string{"Base", "Dir", "Ext"} {
+		n := n
+		x.SpecFuncs["fp"+n] = func(e *Env, a []Value) Value {
+			x.Ctx.DeclareFunc("fp."+n, []string{SString}, SString)
+			return S(App("fp."+n, SString, e.toTerm(a[0])))
+		}
+	}
+	x.SpecFuncs["hasSuffix"] = func(e *Env, a []Value) Value {
+		return S(App("str.suffixof", SBool, e.toTerm(a[1]), e.toTerm(a[0])))
+	}
+
 	// sliceof(x): the slice boxed in interface value x
 	x.SpecFuncs["sliceof"] = func(e *Env, a []Value) Value {
 		t := e.toTerm(a[0])
